@@ -707,6 +707,10 @@ def gen_cases(rng, tier):
             "-sysmismatch" if any(o in [_sysname(d["name"]) for d in devs] for o in others) else "") + ("-many" if len(devs) >= 6 else "")
         add({"kind": "disk", "cls": cls, "devs": devs, "others": others})
     add({"kind": "disk", "cls": "trivial", "devs": [], "others": []})
+    # an existing diskstats that lists NO device while /sys/block is populated (container runtimes bind-mount an empty file):
+    # the answer is the empty table / None, never the sysfs devices
+    for others in (["sda"], ["vda", "nvme0n1"], ["loop0", "sdb", "zram0"]):
+        add({"kind": "disk", "cls": "disk-empty-sysfs-populated", "devs": [], "others": others})
     for _ in range(35 * N):
         devs, others = _disk_file(rng, allow24=True, n=rng.choice([1, 2, 3]))
         if not _fs_safe(devs):
@@ -1071,6 +1075,12 @@ def _mk_block(listing):
         dd = os.path.join(os.fsencode(blk), name)
         os.makedirs(dd, exist_ok=True)
         _mk_queue(dd, name)
+        # decoy /sys/block/<disk>/stat: while {procfs}/diskstats exists (even empty) it is the only source, so this file must
+        # neither be opened (see _unexpected_accesses) nor show up in any answer
+        st = os.path.join(dd, b"stat")
+        if not os.path.exists(st):
+            with open(st, "wb") as f:
+                f.write(b" 7001 7002 7003 7004 7005 7006 7007 7008 0 7010 7011 0 0 0 0 0 0\n")
     return blk
 
 
